@@ -451,6 +451,7 @@ def rule_C11(env):
                 if c == "emit_and_process" and (i == 0 or calls[i - 1] != "get_valid_opcodes"):
                     res.add("P2", "generate_internal/emits-per-iteration", "more than one emit_and_process per loop iteration", loc)
     res.floor("P1", 4, "generate_internal leaves with the loop")
+    PV.proto_invariant_premise(env, res, "C11")
     # P3/P4 on every emission leaf (safe and unsafe)
     nleaf = 0
     for unsafe in (False, True):
